@@ -6,18 +6,29 @@ import sys
 import warnings
 
 
+def _env_seed():
+    v = (os.environ.get("VERIF_SEED") or "0").strip()
+    try:
+        return int(v)
+    except ValueError:  # any string is accepted as a seed
+        import zlib
+
+        return zlib.crc32(v.encode()) % 1000003
+
+
 def main(argv=None):
     warnings.simplefilter("ignore")
     ap = argparse.ArgumentParser()
     ap.add_argument("prop")
     ap.add_argument("--tier", default=os.environ.get("VERIF_TIER", "quick"))
-    ap.add_argument("--seed", type=int, default=int(os.environ.get("VERIF_SEED", "0") or 0))
+    ap.add_argument("--seed", type=int, default=_env_seed())
     ap.add_argument("--replay")
     ap.add_argument("--only")
     a = ap.parse_args(argv)
     if a.tier not in ("quick", "thorough"):
         a.tier = "quick"
     os.environ.setdefault("PYTHONHASHSEED", "0")
+    os.environ["VERIF_SEED"] = str(a.seed)  # check modules that derive sub-seeds read the effective seed here
     from vp import farm
 
     mod = importlib.import_module(f"vp.checks.{a.prop.lower()}")
